@@ -297,6 +297,16 @@ class ProgGen:
         base = rng.choice(info.units)
         if "offset" in info.table.units.get(base, {}):
             base = info.units[0]
+        self.used_names = getattr(self, "used_names", set())
+        if not info.client["case_sensitive"] and rng.random() < 0.5:
+            # a new unit that differs from an existing one in letter case only: where case is ignored, every
+            # spelling of the old one in another case may now mean the new one
+            twin = rng.choice([base.upper(), base.title()])
+            if twin not in info.table.spellings() and (ci, twin) not in self.used_names:
+                self.used_names.add((ci, twin))
+                self.twins = getattr(self, "twins", {})
+                self.twins[ci] = twin
+                return f"{twin} = {rng.choice(DEC_FACTORS)} * {info.units[0]}"
         if r < 0.6:
             line = f"x{n} = {rng.choice(DEC_FACTORS)} * {base}"
             if rng.random() < 0.3:
@@ -355,8 +365,14 @@ class ProgGen:
                     before = rng.choice([["parse_units", name, {}], ["compat", name], ["dim", name], ["root", name],
                                          ["base", name], ["base", name + "s"], ["root", "K" + name],
                                          ["conv", "2", name, info.units[0]]])
+                    if not info.client["case_sensitive"] and rng.random() < 0.6:
+                        odd = rng.choice([name.upper(), name.swapcase(), name.lower()])
+                        before = rng.choice([["dim", "kilo" + odd], ["root", "milli" + odd], ["dim", odd], ["base", "K" + odd],
+                                             ["tobase", "2", "kilo" + odd]])
                     after = rng.choice([["conv", "2", name, info.units[0]], ["root", name], ["parse_units", name, {}],
                                         ["base", name], before, before])
+                    if before[0] in ("dim", "root", "base", "tobase") and before[-1] != name and rng.random() < 0.7:
+                        after = before
                     self.pools[ci].append(after)
                     self.pending = [{"c": ci, "k": "define", "line": line}, {"c": ci, "k": "ask", "q": after}]
                     return {"id": sid, "c": ci, "k": "ask", "q": before}
